@@ -551,6 +551,38 @@ pub fn run(sink: &mut Sink, rng: &mut Rng, thorough: bool, dir: &Path) {
       sink.emit(&format!("cli_from_usec {} {}", depth, l), &ans, true);
     }
   }
+  // RFC 3339 timestamps with a FRACTION of a second (milli- and microsecond digits), as timestamps and as ranges:
+  // the instant is day + h:m:s + the fraction, in whole microseconds
+  {
+    let day0: u64 = 212_444_596_800_000_000;
+    let inst: Vec<(u64, u64)> = vec![(0, 250_000), (1, 4), (59, 999_999), (43_199, 500_000), (43_200, 1), (45_678, 123_456), (86_399, 999_000), (30_000, 0), (61_234, 70)];
+    let iso = |x: &(u64, u64)| -> String {
+      let frac = if x.1 == 0 { String::new() } else { let f = format!("{:06}", x.1); format!(".{}", f.trim_end_matches('0')) };
+      format!("2020-01-01T{:02}:{:02}:{:02}{}Z", x.0 / 3600, (x.0 / 60) % 60, x.0 % 60, frac)
+    };
+    for depth in [61u8, 51, 42] {
+      let input: String = inst.iter().map(|x| format!("{}\n", iso(x))).collect();
+      let outp = dir.join("from_isofrac.fits");
+      let _ = fs::remove_file(&outp);
+      let o = moc(&["from", "timestamp", "--time-type", "isorfc", &depth.to_string(), "-", "fits", outp.to_str().unwrap()], Some(&input));
+      let ans = if o.code == 0 { decode(&outp, "fits", "time") } else { format!("exit {} {}", o.code, o.err.lines().next().unwrap_or("")) };
+      sink.count("from-timestamp:iso-fraction");
+      let l = inst.iter().map(|x| (day0 + x.0 * 1_000_000 + x.1).to_string()).collect::<Vec<_>>().join(",");
+      sink.emit(&format!("cli_from_usec {} {}", depth, l), &ans, true);
+      // the same instants, pairwise, as time ranges [a, b)
+      let mut sorted = inst.clone();
+      sorted.sort();
+      let pairs: Vec<((u64, u64), (u64, u64))> = sorted.chunks(2).filter(|c| c.len() == 2).map(|c| (c[0], c[1])).collect();
+      let input: String = pairs.iter().map(|(a, b)| format!("{} {}\n", iso(a), iso(b))).collect();
+      let outp = dir.join("from_isofrac_r.fits");
+      let _ = fs::remove_file(&outp);
+      let o = moc(&["from", "timerange", "--time-type", "isorfc", &depth.to_string(), "-", "fits", outp.to_str().unwrap()], Some(&input));
+      let ans = if o.code == 0 { decode(&outp, "fits", "time") } else { format!("exit {} {}", o.code, o.err.lines().next().unwrap_or("")) };
+      sink.count("from-timerange:iso-fraction");
+      let l = pairs.iter().map(|(a, b)| format!("{}-{}", day0 + a.0 * 1_000_000 + a.1, day0 + b.0 * 1_000_000 + b.1)).collect::<Vec<_>>().join(",");
+      sink.emit(&format!("cli_from_uranges {} {}", depth, l), &ans, true);
+    }
+  }
   // instants that are not in the time domain [0, 2^62) us: no cell exists for them; the tool must not write one
   for (tt, val) in [("usec", "4611686018427387904"), ("usec", "18446744073709551615"), ("jd", "nan"), ("jd", "-5"), ("jd", "1e10"), ("jd", "inf"), ("mjd", "-2400001")] {
     let outp = dir.join("from_ood.ascii");
